@@ -21,6 +21,7 @@ from typing import Annotated, Union
 
 _counter = itertools.count()
 
+INFEASIBLE = {"hits": 0}  # how often a dependent refinement made a production infeasible (forces backtracking)
 BASES = {"int": int, "float": float, "str": str, "bool": bool}
 
 
@@ -98,6 +99,7 @@ def build_type(t, ns):
         def f(value, shape=shape, kk=kk):
             d = dep_params(shape, kk, value)
             if d is None:
+                INFEASIBLE["hits"] += 1
                 from geneticengine.grammar.metahandlers.vars import VarRange
 
                 return VarRange([])  # raises the library's SynthesisException
